@@ -45,10 +45,7 @@ def _conv(e, variables):
             return ["pow", _conv(b, variables), int(x)]
         if x.is_Integer and x < 0 and b.is_Rational:
             return ["num", L.fs(Fraction(int(b.p), int(b.q)) ** int(x))]
-        if b.is_Rational and x.is_Rational:
-            v = sympy.nsimplify(e)
-            if v.is_Rational:
-                return ["num", L.fs(Fraction(int(v.p), int(v.q)))]
+        # rational powers of rationals that are rational (4**(1/2)) are evaluated by sympy itself; what is left is irrational
         raise OracleGiveUp(f"expression {e} not polynomial with rational coefficients")
     raise OracleGiveUp(f"expression {e} not convertible")
 
